@@ -161,6 +161,16 @@ def run(facts, tr, rep):
                     rep.ob("C20.READY-FIELD", site_key(b, "replace#%d" % _ordinal(g, cs)), key[2] == ff or not _is_service_field(facts, b, key[2]),
                            cs.where(), "mem::replace takes self.%s; poll_ready forwards to self.%s" % (key[2], ff))
 
+    # ---------------------------------------------------------------- the umbrella crate holds no logic
+    um = facts.crates.get("tower_resilience")
+    if um is None:
+        rep.anchor_missing("umbrella crate tower_resilience")
+    else:
+        logic = [im for im in um.impls if im.get("trait") in ("tower_service::Service", "tower_layer::Layer", "core::future::future::Future", "core::ops::drop::Drop")]
+        rep.ob("C20.UMBRELLA", "tower_resilience|no-logic", not logic and not um.bodies, "-",
+               "the umbrella crate defines no Service/Layer/Future/Drop impl and no function body (%d bodies): no behaviour can hide behind the re-exports" % len(um.bodies)
+               if not logic and not um.bodies else
+               "the umbrella crate defines %d function bodies / %d Service|Layer|Future|Drop impls that are not analysed by the per-crate rules" % (len(um.bodies), len(logic)))
     # ---------------------------------------------------------------- LISTEN
     sites = []
     for b in facts.all_bodies():
